@@ -22,7 +22,8 @@ LEVEL = "exploration"
 RULE = (
     "valid generated histories x every cut T between two distinct instants x methods / schedules; continuations are the "
     "history's own later rows plus tempting extras appended after T (a higher-priced lot for HIFO, a lower-priced one for "
-    "LOFO, a newer one for LIFO, dated 1 us / 1 day after T, and a disposal that would exhaust earlier lots). Relation: all "
+    "LOFO, a newer one for LIFO, dated 1 us / 1 day after T, and a disposal that would exhaust earlier lots); directed: the configured "
+    "method changes in a year without transactions while a lot is partly consumed. Relation: all "
     "fraction records (event, lot, amount, proceeds, cost, gain, long/short) of events <= T and the yearly lines of years "
     "closed before the continuation are identical in both runs; second form: run with to-date D == run on the history "
     "truncated at D (fractions, yearly lines, balances, average price, k/n labels), also with rows stamped exactly 00:00:00.000000 "
@@ -34,8 +35,8 @@ ASSUMPTIONS = [
     "to-dates are only used where own-date order and instant order agree across the cut (KF1 region excluded)",
 ]
 SETTINGS: Dict[str, Dict[str, Any]] = {
-    "quick": {"cases": 500, "cli_cases": 48, "budget_s": 50, "minimums": {"cuts_checked": 3000, "nontrivial": 1500, "todate_pairs": 500, "cli_pairs": 3, "todate_pairs_with_a_row_at_the_midnight_after_the_to_date": 150}},
-    "thorough": {"cases": 30000, "cli_cases": 150, "budget_s": 420, "minimums": {"cuts_checked": 150000, "nontrivial": 80000, "todate_pairs": 25000, "cli_pairs": 75, "todate_pairs_with_a_row_at_the_midnight_after_the_to_date": 8000}},
+    "quick": {"cases": 500, "cli_cases": 48, "budget_s": 50, "minimums": {"cuts_checked": 3000, "nontrivial": 1500, "todate_pairs": 500, "cli_pairs": 3, "todate_pairs_with_a_row_at_the_midnight_after_the_to_date": 150, "histories_with_a_method_change_in_a_year_without_transactions": 25}},
+    "thorough": {"cases": 30000, "cli_cases": 150, "budget_s": 420, "minimums": {"cuts_checked": 150000, "nontrivial": 80000, "todate_pairs": 25000, "cli_pairs": 75, "todate_pairs_with_a_row_at_the_midnight_after_the_to_date": 8000, "histories_with_a_method_change_in_a_year_without_transactions": 1200}},
 }
 PROFILES = [
     Profile(max_events=14, min_events=5),
@@ -244,6 +245,13 @@ def run_shard(ctx: Any) -> None:
                         _observe_todate(ctx, ip, with_midnight, sched, d.isoformat())
         else:
             ctx.count("generated_invalid")
+        if index % 8 == 5:
+            from rpv import families
+
+            sparse, sparse_sched = families.method_switch_in_an_empty_year(rng)
+            if is_valid(Model(sparse)):
+                ctx.count("histories_with_a_method_change_in_a_year_without_transactions")
+                _observe_prefixes(ctx, ip, sparse, sparse_sched, rng)
         index += ctx.nshards
         done += 1
     ctx.count("inputs", done)
